@@ -316,11 +316,39 @@ def _dims_guard(chk):
         for g in class_closure(pm, sc, t.fn):
             gf = FuncFacts.of(g)
             for r in [x for x in walk_no_nested(g.node) if isinstance(x, ast.Raise)]:
-                for gd in gf.guards(r):
-                    for p in gf.paths(gd.test, spine_only=False, follow=True):
-                        if p.atom.kind == "selfattr":
-                            covered.add(p.atom.name)
+                gds = list(gf.guards(r))
+                # only the raise of the DIMENSION comparison counts here (its condition reads `.dims`); the label comparison
+                # further down refuses other labels, not a dimension that is absent
+                def _txt(t):
+                    try:
+                        from .common import inline_locals as _il
+                        return norm(_il(gf, t))
+                    except Exception:
+                        return norm(t)
+                if not any(".dims" in _txt(gd.test) for gd in gds):
+                    continue
+                for gd in gds:
+                    if not gd.polarity or ".dims" not in _txt(gd.test):
+                        continue  # `not missing` left behind by an earlier early exit, or a condition of another comparison
+                    # `required - set(data.dims)`: what the check REQUIRES is the left operand; the data side says nothing
+                    # about which fitted arrays are looked at
+                    tests = [gd.test]
+                    if isinstance(gd.test, ast.Name):
+                        defs = [st.value for st in walk_no_nested(g.node) if isinstance(st, ast.Assign) and any(isinstance(tg, ast.Name) and tg.id == gd.test.id for tg in st.targets)]
+                        tests = defs or tests
+                    for t in tests:
+                        if isinstance(t, ast.BinOp) and isinstance(t.op, ast.Sub):
+                            t = t.left
+                        for p in gf.paths(t, spine_only=False, follow=True):
+                            if p.atom.kind == "selfattr":
+                                covered.add(p.atom.name)
     whole = {"self.feature_dims", "self.dims"} & covered
+    # ... provided that attribute is part of the state a rebuilt model (load, compute(), rotators) gets back: a check that
+    # reads fit-time bookkeeping which is not serialised compares against nothing after a round trip
+    from .c13 import _serial_keys
+    sk = _serial_keys(sc)
+    if sk is not None:
+        whole = {w for w in whole if w.split(".", 1)[1] in sk}
     miss = sorted(a for a in used if a not in covered) if not whole else []
     chk.check(not miss, "GUARD.dims.cover", tr, used[miss[0]] if miss else good,
               construct="Scaler.transform: every fitted array combined with the data is covered by the dimension check",
@@ -328,6 +356,35 @@ def _dims_guard(chk):
                   f"{'their' if len(miss) > 1 else 'its'} dimensions is broadcast and answered with numbers when no other fitted array carries that dimension",
               facts={"combined_with_data": sorted(used), "covered_by_check": sorted(covered)})
     chk.require(len(used) >= 3, "Scaler.transform: arithmetic with fitted arrays vanished")
+    # GUARD.dims.coords - xarray arithmetic aligns by label with an INNER join: data whose labels along a fitted dimension
+    # are a superset of (or differ from) the fitted ones are silently cut down to the fitted labels by the first product
+    # with a fitted array, and every later coordinate check (stacker) sees exactly what it expects.  The validator that runs
+    # before the arithmetic must therefore compare the data's index with the fitted arrays' index, order-sensitively.
+    cmp_ok = None
+    per_var = False
+    for t in ctx.resolve_call(good):
+        if t.fn is None:
+            continue
+        for g in class_closure(pm, sc, t.fn):
+            gf = FuncFacts.of(g)
+            txt_g = norm(g.node)
+            if any(k in txt_g for k in ("data_vars", ".items()", ".values()", ".map(")) or ("isinstance" in txt_g and "Dataset" in txt_g):
+                per_var = True
+            for r in [x for x in walk_no_nested(g.node) if isinstance(x, ast.Raise)]:
+                for gd in gf.guards(r):
+                    for c in ast.walk(gd.test):
+                        if isinstance(c, ast.Call) and isinstance(c.func, ast.Attribute) and c.func.attr in ("equals", "identical") and c.args:
+                            a, b = norm(c.func.value), norm(c.args[0])
+                            lab = lambda z: ".indexes[" in z or "to_index()" in z or ".get_index(" in z
+                            if lab(a) and lab(b):
+                                cmp_ok = c
+    chk.check(cmp_ok is not None, "GUARD.dims.coords", tr, good, construct="Scaler.transform: the data's labels are compared with the fitted arrays' labels before the arithmetic",
+              why="the validator that precedes the scaling arithmetic does not compare the data's coordinates with those of the fitted mean / std / weights: "
+                  "data with a superset of the fitted labels (8 longitudes for a model fitted on 6) are inner-joined down to the fitted labels by the first "
+                  "product and transform answers with scores although the input does not match the model")
+    chk.check(per_var, "GUARD.dims.per_variable", tr, good, construct="Scaler.transform: Dataset input is validated variable by variable",
+              why="the dimension check looks at the union of the Dataset's dimensions: a variable that lacks a feature dimension another variable has is "
+                  "broadcast against the fitted arrays and projected at full size")
     gn = ff.cfg.node_for(good)
     ops = [b for b in walk_no_nested(tr.node) if isinstance(b, ast.BinOp) and any(is_self_attr(x) for x in (b.left, b.right))]
     chk.check(bool(ops) and all(ff.cfg.dominates(gn, ff.cfg.node_for(b)) for b in ops), "GUARD.dims", tr, good,
